@@ -144,7 +144,7 @@ func c17Docs() []*sbom.Document {
 		d.Metadata.Version = "1"
 		d.NodeList.AddRootNode(&sbom.Node{Id: "root", Name: "root"})
 		for j := 0; j <= i; j++ {
-			n := &sbom.Node{Id: fmt.Sprintf("n%d", j), Name: fmt.Sprintf("node %d", j), Version: "1", Hashes: map[int32]string{3: "00ff"}}
+			n := &sbom.Node{Id: fmt.Sprintf("n%d", j), Name: fmt.Sprintf("node %d", j), Version: "1", Hashes: map[int32]string{3: "00ff00ff00ff00ff00ff00ff00ff00ff00ff00ff00ff00ff00ff00ff00ff00ff"}}
 			d.NodeList.AddNode(n)
 			d.NodeList.Edges = append(d.NodeList.Edges, &sbom.Edge{From: "root", Type: sbom.Edge_contains, To: []string{n.Id}})
 		}
